@@ -128,6 +128,12 @@ def contested_use(prog, table):
     return rows[0] if rows else (None, None)
 
 
+def has_prop_t(stmts):
+    def go(n):
+        return (n["k"] == "prop" and n["s"] == "t") or any(go(c) for c in n["a"])
+    return any(go(st) for st in stmts)
+
+
 def run(tier):
     chk = Check("C08", tier)
     rng = random.Random(common.seed())
@@ -154,6 +160,7 @@ def run(tier):
     full = run_oalv_parallel("compile", [{"main": c["main"], "files": c["files"], "want": {"doc": True}} for c in cases], jobs=8)
     nontrivial = 0
     dyn = 0
+    accepted_progs = []
     for g, rp_, o, f in zip(progs, rendered, obs, full):
         prog = g["prog"]
         text = rp_["files"][BASE + "m1.oal"]
@@ -206,7 +213,10 @@ def run(tier):
         if not bad:
             chk.cov["traces_validated_against_impl"] += 1
         nontrivial += 1
-        # evaluation honours the binding
+        # evaluation honours the binding (marker properties; the sites with a use after a rec are judged by the denotation below)
+        accepted_progs.append((prog, rp_, f))
+        if has_prop_t(prog["mods"]["m1"]):
+            continue
         row, node = contested_use(prog, g["mods"]["m1"]["table"])
         if row is None or f.get("outcome") != "ok" or f.get("load", {}).get("result") != "ok" or f.get("eval", {}).get("result") != "ok" \
                 or f.get("emit", {}).get("result") != "ok":
@@ -225,10 +235,31 @@ def run(tier):
             chk.violation("C08|evaluation|expected=%s found=%s" % (want, ",".join(sorted(found)) + ("+self" if selfref else "")),
                           "the evaluated document carries %s (self-reference: %s) but the use is bound to the %s binder: %r" % (
                               sorted(found), selfref, want, text[:200]), dict(payload, doc=f["doc"]))
-    # evaluation honours the binding when caller and callee use the same names: the DynScope family, denotation by Den.tla
-    # (lexical environments) against the evaluated document
+    # evaluation honours the binding, in general: the evaluated document of every accepted member of the Scopes family
+    # must be the denotation Den.tla gives it (oracle mode)
     import absdoc
     import c02
+    import oracle
+    acc = [(p, rp_, f) for p, rp_, f in accepted_progs if f.get("outcome") == "ok" and f.get("emit", {}).get("result") == "ok"]
+    if tier == "quick" and len(acc) > 250:
+        acc = rng.sample(acc, 250)
+    dens, drs = oracle.den([a[0] for a in acc], chunk=300, timeout=1800)
+    for r2 in drs:
+        chk.add_tlc(r2)
+    scope_same = 0
+    for (p, rp_, f), dn in zip(acc, dens):
+        if dn is None or not dn["defined"]:
+            continue
+        diffs = absdoc.compare_docs(absdoc.expected_doc(dn), absdoc.abstract_doc(f["doc"], c02.K))
+        if diffs:
+            chk.violation("C08|evaluation|scopes|%s" % diffs[0][0], "the evaluated document is not the one the lexical binding gives (%s): %r" % (
+                diffs[0][1][:200], rp_["files"][BASE + "m1.oal"][:200]), {"prog_text": rp_["files"], "differences": diffs[:4]})
+        else:
+            scope_same += 1
+            chk.cov["traces_validated_against_impl"] += 1
+    chk.notes["scopes_members_equal_to_denotation"] = "%d/%d" % (scope_same, len(acc))
+    # evaluation honours the binding when caller and callee use the same names: the DynScope family, denotation by Den.tla
+    # (lexical environments) against the evaluated document
     rd = run_tlc("DenMC", "Den_dynscope.cfg", workers=4, timeout=900, java_opts=["-Xss512m"])
     chk.add_tlc(rd)
     if not rd.ok:
@@ -256,7 +287,7 @@ def run(tier):
     chk.notes["dynamic_agreement_checked"] = dyn
     chk.cov["exhaustive"] = True
     chk.cov["rule"] = ("the Scopes family of ResolveMC.tla: contested name in {n, concat} x unqualified import x qualified import x declaration (absent, before, "
-                       "after the use) x parameter name x rec binder name x use site (top level, function body, rec body, rec in function body, qualified); "
+                       "after the use) x parameter name x rec binder name x use site (top level, function body, rec body, rec in function body, qualified, after a rec at top level / in a function body); "
                        "programs are distinct records; non-trivial = every use has a binder (a complete binding table is compared); plus the DynScope family of Families.tla "
                        "(callee parameters a, b[, c] x caller binder in {a, b, z} as function parameter or rec binder x argument patterns x local/imported callee), whose "
                        "evaluated document must equal the denotation Den.tla computes with lexical environments")
